@@ -199,10 +199,10 @@ def join(a, b):
                     e = _j(e, it)
         elem = e
     ndim = a.ndim if a.ndim == b.ndim else None
-    # ndim of an ndarray joined with a non-array keeps the array's ndim (only arrays carry it)
-    if a.ndim is None and not a.may('arr', 'list', 'tuple') and b.ndim is not None:
+    # ndim describes the ndarray component of a value: a side that cannot be an ndarray does not blur it
+    if a.ndim is None and not a.may('arr') and b.ndim is not None:
         ndim = b.ndim
-    if b.ndim is None and not b.may('arr', 'list', 'tuple') and a.ndim is not None:
+    if b.ndim is None and not b.may('arr') and a.ndim is not None:
         ndim = a.ndim
     const = a.const if (a.const is not NOCONST and b.const is not NOCONST and type(a.const) is type(b.const)
                         and a.const == b.const) else NOCONST
